@@ -246,7 +246,7 @@ func (env *Env) callSpec(x *ast.CallExpr, fn *types.Func, spec *FuncSpec, recvEx
 		pre[a.name] = Val{T: t, GoT: a.typ}
 	}
 	calleePkg := c.eng.PkgByName[spec.Pkg]
-	preEnv := &Env{c: c, st: env.st, names: pre, pkg: calleePkg}
+	preEnv := &Env{c: c, st: env.st, names: pre, pkg: calleePkg, foreign: true}
 	props := c.spec.Props
 	for i, r := range spec.Requires {
 		lbl := r.Label
@@ -270,7 +270,7 @@ func (env *Env) callSpec(x *ast.CallExpr, fn *types.Func, spec *FuncSpec, recvEx
 	if modGhost {
 		oldSt = env.st.Clone()
 	}
-	oldEnv := &Env{c: c, st: oldSt, names: pre, pkg: calleePkg}
+	oldEnv := &Env{c: c, st: oldSt, names: pre, pkg: calleePkg, foreign: true}
 	// post-state
 	post := map[string]Val{}
 	for k, v := range pre {
@@ -352,7 +352,7 @@ func (env *Env) callSpec(x *ast.CallExpr, fn *types.Func, spec *FuncSpec, recvEx
 		post["result"] = Val{Loc: retLoc}
 		post["result0"] = post["result"]
 	}
-	postEnv := &Env{c: c, st: env.st, names: post, old: oldEnv, pkg: calleePkg}
+	postEnv := &Env{c: c, st: env.st, names: post, old: oldEnv, pkg: calleePkg, foreign: true}
 	for _, en := range spec.Ensures {
 		env.st.Assume(postEnv.evalSpecBool(en))
 	}
